@@ -133,7 +133,11 @@ func (dm *DMap) deleteKey(key string) error {
 	if !f.storage.Check(hkey) {
 		// DeleteMisses is the number of deletions reqs for missing keys
 		DeleteMisses.Increase(1)
-		return nil
+		// There is no copy in the primary fragment of this node. A previous owner of the
+		// partition (during rebalancing) or a backup owner (after the former primary owner
+		// has left) may still hold one. It has to be deleted there too, otherwise the key
+		// is readable again right after an acknowledged Delete.
+		return dm.deleteOnCluster(hkey, key, f)
 	}
 
 	return dm.deleteOnCluster(hkey, key, f)
